@@ -64,18 +64,47 @@ def line_slices(fn: ast.AST, var: str = "line") -> Dict[str, Tuple[int, int]]:
     return out
 
 
+def reader_slices(chk, which: str) -> Tuple[Dict[str, Optional[Tuple[int, int]]], str]:
+    """PDB field -> column range the reader takes it from, and how that was established.
+    'probe': the reader was interpreted on probe lines whose characters encode their own column (any factoring of the decoding code);
+    'syntax': fallback, the `line[a:b]` subscripts were read off the source."""
+    from checks import c08e
+
+    repo = chk.repo
+    sp = spec("pdb_columns.json")
+    cache = getattr(repo, "_reader_slices", None)
+    if cache is None:
+        cache = repo._reader_slices = {}
+    if which not in cache:
+        got = c08e.v1_columns(repo) if which == "v1" else c08e.v2_columns(repo, sp)
+        if got is not None and sum(1 for v in got.values() if v is not None) >= 3:
+            cache[which] = (got, "probe")
+        elif which == "v1":
+            fi = repo.func(P, "parse_pdb")
+            raw = line_slices(fi.node)
+            cache[which] = ({field: raw.get(var) for var, field in sp["parser_names"].items()}, "syntax")
+        else:
+            cache[which] = (line_slices(repo.func("parser_v2", "parse_pdb_atoms").node), "syntax")
+        if cache[which][1] == "syntax" and sum(1 for v in cache[which][0].values() if v is not None) < 3:
+            cache[which] = ({}, "none")  # neither evaluable nor in the pinned form: nothing is known about the columns
+    return cache[which]
+
+
 def check_pdb_columns(chk) -> Dict[str, Tuple[int, int]]:
     repo = chk.repo
     sp = spec("pdb_columns.json")
     fi = repo.func(P, "parse_pdb")
     chk.note_function(fi)
-    got = line_slices(fi.node)
+    slices, how = reader_slices(chk, "v1")
+    if how == "none":
+        chk.error("pdb-columns", fi.where, "the columns parse_pdb takes its fields from could not be established (reader not evaluable on probe lines, no `line[a:b]` subscripts found)")
+        return {}
     # restrict to the ATOM branch variables
     names = sp["parser_names"]
     res = {}
     for var, field in names.items():
         want = tuple(sp["atom"][field])
-        g = got.get(var)
+        g = slices.get(field)
         res[field] = g
         chk.expect(
             g == want,
@@ -88,16 +117,36 @@ def check_pdb_columns(chk) -> Dict[str, Tuple[int, int]]:
             found=list(g) if g else None,
         )
     # MODEL serial
-    ms = [n for n in ast.walk(fi.node) if isinstance(n, ast.If) and norm(n.test) in ("line.startswith('MODEL')",)]
-    ok = False
-    if ms:
-        sls = line_slices(ast.Module(body=ms[0].body, type_ignores=[]))
-        ok = sls.get("model") == tuple(sp["model_serial"])
+    if how == "probe":
+        ok = slices.get("model") == tuple(sp["model_serial"])
+    else:
+        ms = [n for n in ast.walk(fi.node) if isinstance(n, ast.If) and norm(n.test) in ("line.startswith('MODEL')",)]
+        ok = False
+        if ms:
+            sls = line_slices(ast.Module(body=ms[0].body, type_ignores=[]))
+            ok = sls.get("model") == tuple(sp["model_serial"])
     chk.expect(ok, "pdb-columns", fi.where, "MODEL serial is read from columns 11-14", "MODEL serial is not read from line[10:14]", K(fi, "column:model"))
     return res
 
 
 def check_parse_pdb(chk) -> None:
+    repo = chk.repo
+    fi = repo.func(P, "parse_pdb")
+    from checks import c08e
+
+    evaluated = False
+    try:
+        evaluated = c08e.check_v1_reader_eval(chk)
+    except AnalysisError:
+        raise
+    except Exception as ex:
+        chk.ok("pdb-reader-eval", fi.where, f"evaluation of parse_pdb failed internally ({type(ex).__name__}): the pinned-form rules decide")
+    if not evaluated:
+        _check_parse_pdb_form(chk)
+    _check_try_parse_int(chk)
+
+
+def _check_parse_pdb_form(chk) -> None:
     repo = chk.repo
     fi = repo.func(P, "parse_pdb")
     fm = FlowMap(fi.node)
@@ -126,6 +175,10 @@ def check_parse_pdb(chk) -> None:
         au = conv.get("auth")
         ok = ok and au is not None and flat(au) == flat("ResidueAuth(chain_identifier, residue_number, insertion_code, residue_name)")
         chk.expect(ok, "pdb-atom-record", fi.site(b), "Atom(None, None, ResidueAuth(chain, number, icode, name), model, atom name, x, y, z, occupancy)", "the Atom built from a PDB line does not carry (auth identity, current model, name, x, y, z, occupancy) in field order", K(fi, "atom-record"))
+
+
+def _check_try_parse_int(chk) -> None:
+    repo = chk.repo
     tpi = repo.func(P, "try_parse_int")
     chk.note_function(tpi)
     arg = tpi.node.args.args[0].arg
@@ -181,6 +234,8 @@ def _resolve_aliases(node: ast.AST, scope: ast.AST, keep: Tuple[str, ...] = ()) 
             t, v = st.targets[0], st.value
             if isinstance(t, ast.Name) and isinstance(v, (ast.Subscript, ast.Attribute, ast.Name)) and len(astq.assignments(scope, t.id)) == 1:
                 alias[t.id] = v
+            elif isinstance(t, ast.Name) and isinstance(v, ast.Call) and isinstance(v.func, ast.Attribute) and v.func.attr == "get" and len(v.args) == 1 and not v.keywords and isinstance(v.func.value, ast.Name) and isinstance(v.args[0], ast.Name) and len(astq.assignments(scope, t.id)) == 1:
+                alias[t.id] = v  # a look-up `d.get(k)` bound once to a name
             elif isinstance(t, ast.Tuple) and isinstance(v, ast.Tuple) and len(t.elts) == len(v.elts):
                 for a, b in zip(t.elts, v.elts):
                     if isinstance(a, ast.Name) and isinstance(b, (ast.Subscript, ast.Attribute, ast.Name)) and len(astq.assignments(scope, a.id)) == 1:
@@ -226,11 +281,12 @@ def _duplicate_rule(chk, fi: FuncInfo, fm: FlowMap) -> None:
 
     reps = [s2 for s2 in ast.walk(fi.node) if isinstance(s2, ast.Assign) and norm(s2) == "unique_atoms[key] = atom"]
     loops = [l for l in fi.node.body if isinstance(l, ast.For) and any(r is n for r in reps for n in ast.walk(l))]
-    if len(reps) != 1 or len(loops) != 1:
+    if len(reps) < 1 or len(loops) != 1:
         chk.error("occupancy-wins", fi.where, "replacement site `unique_atoms[key] = atom` inside one loop over the atoms not found")
         return
     loop = loops[0]
-    NEW, KEPT = "atom.occupancy", "unique_atoms[key].occupancy"
+    NEW = "atom.occupancy"
+    STORED = ("unique_atoms[key]", "unique_atoms.get(key)")  # the copy kept so far (values of the map are atoms, never None)
     problems = []
     n_paths = 0
     for events, exit_ in PT.paths(loop.body):
@@ -242,9 +298,12 @@ def _duplicate_rule(chk, fi: FuncInfo, fm: FlowMap) -> None:
                 continue
             t = norm(_resolve_aliases(ev[3], loop, keep=("key", "atom")))
             val = ev[2]
-            if t == "key not in unique_atoms":
+            for sk in STORED:
+                t = t.replace(sk, "KEPT")
+            KEPT = "KEPT.occupancy"
+            if t in ("key not in unique_atoms", "KEPT is None"):
                 known["first"] = val
-            elif t == "key in unique_atoms":
+            elif t in ("key in unique_atoms", "KEPT is not None"):
                 known["first"] = not val
             elif _none_atom(t, NEW) is not None:
                 known["new_none"] = (_none_atom(t, NEW) == val)
@@ -258,7 +317,7 @@ def _duplicate_rule(chk, fi: FuncInfo, fm: FlowMap) -> None:
                 order.append(("cmp", ev[3], dict(known)))
             else:
                 unknown.append(t)
-        replaced = any(ev[0] == "stmt" and ev[1] is reps[0] for ev in events)
+        replaced = any(ev[0] == "stmt" and any(ev[1] is r for r in reps) for ev in events)
         n_paths += 1
         if unknown:
             problems.append(("error", loop, f"condition `{unknown[0][:70]}` in the duplicate filter not understood", "unknown"))
@@ -387,7 +446,9 @@ def _clash_rule(chk, fi: FuncInfo, fm: FlowMap) -> None:
     AI, AJ = f"{L}[{i}]", f"{L}[{j}]"
     problems = []
     n_paths = 0
-    for events, exit_ in PT.paths(cl.body):
+    from sa.normalize import split_ifexp
+
+    for events, exit_ in PT.paths(split_ifexp(cl.body)):
         known = {"diff_model": None, "i_none": None, "j_none": None, "i_higher": None}
         cmps = []
         unknown = []
@@ -414,6 +475,9 @@ def _clash_rule(chk, fi: FuncInfo, fm: FlowMap) -> None:
                 unknown.append((t, ev[3], val))
         n_paths += 1
         drops = [norm(a.args[0]) for a in PT.calls_on(events, "atoms_to_keep", "discard") + PT.calls_on(events, "atoms_to_keep", "remove") if a.args]
+        if any(d not in (i, j) for d in drops):
+            problems.append(("error", cl, f"the dropped position `{[d for d in drops if d not in (i, j)][0][:60]}` is neither `{i}` nor `{j}`", "unknown"))
+            continue
         for node, k in cmps:
             if k["i_none"] is not False or k["j_none"] is not False:
                 problems.append(("optional-occupancy", node, f"`{norm(node)[:80]}` is evaluated on a path where an occupancy was not established to be known: TypeError for atoms without occupancy", "clash-none"))
@@ -536,6 +600,15 @@ def check_model_selection(chk) -> None:
     for n, var in late_binding_sites(fi.node):
         chk.violation("late-binding", fi.site(n), f"`{norm(n)[:80]}` is a lazy iterator that captures the comprehension/loop variable `{var}` and is stored unevaluated: when it is finally consumed `{var}` has its last value, so every entry selects the same (last) model", K(fi, f"late-binding:{var}"))
     chk.ok("late-binding", fi.where, "no lazy iterator over a loop/comprehension variable escapes its iteration")
+    from checks import c08e
+
+    try:
+        if c08e.check_model_selection_eval(chk):
+            return  # decided by evaluation on representative files; the symbolic path reading below is the fallback
+    except AnalysisError:
+        raise
+    except Exception as ex:
+        chk.ok("model-selection-eval", fi.where, f"evaluation of read_3d_structure failed internally ({type(ex).__name__}): the symbolic path rule decides")
     FIRST_FORMS = ("list(AM.keys())[0]", "list(AM)[0]", "next(iter(AM))", "next(iter(AM.keys()))", "[*AM][0]", "min(AM)")
     AM_FORMS = ("{atom.model: None for atom in atoms}", "dict.fromkeys((atom.model for atom in atoms))", "dict.fromkeys([atom.model for atom in atoms])", "list(dict.fromkeys((atom.model for atom in atoms)))")
     results = {}
@@ -664,6 +737,15 @@ def check_group(chk) -> None:
     repo = chk.repo
     fi = repo.func(P, "group_atoms")
     chk.note_function(fi)
+    from checks import c08e
+
+    try:
+        if c08e.check_group_eval(chk):
+            return  # decided on the current code by evaluation; the pinned form below is only a fallback
+    except AnalysisError:
+        raise
+    except Exception as ex:  # an internal fault of the evaluated rule must not hide the pinned-form reading
+        chk.ok("group-eval", fi.where, f"evaluation of group_atoms failed internally ({type(ex).__name__}): the pinned-form rules decide")
     keys = [s for s in ast.walk(fi.node) if isinstance(s, ast.Assign) and norm(s.targets[0]) in ("key", "key_previous") and isinstance(s.value, ast.Tuple)]
     fields = [sorted(x.attr for x in ast.walk(k.value) if isinstance(x, ast.Attribute)) for k in keys]
     ok = len(keys) == 2 and all(f == ["auth", "label", "model"] for f in fields)
